@@ -46,7 +46,11 @@ type G struct {
 	children map[string]int
 	iters    uint64
 	LastSite string
-	sim      *Sim
+	// LastState / LastStateSite: the last value this goroutine wrote to a step state field (rule T8)
+	LastState     string
+	LastStateSite string
+	stateFresh    bool // a state was written since the goroutine last parked
+	sim           *Sim
 }
 
 var gmu sync.Mutex
@@ -89,6 +93,9 @@ type parked struct {
 	onQuiesce func() // run once by the scheduler at the next quiescent point, before anything is released
 	lazy      bool   // environment action: released only when the policy asks for it or nothing else can run
 	notBefore int64
+	// afterState: the goroutine wrote a step state (rule T8) since it last parked - whatever it does next
+	// is what the claim it has just made waits for
+	afterState bool
 }
 
 // Key is the stable identity of a parked goroutine at a site.
@@ -147,7 +154,9 @@ type Snapshot struct {
 	Seq    int64    `json:"seq"`
 	Site   string   `json:"site"`
 	G      string   `json:"g"`
-	Others []string `json:"others"` // "role@site" (parked) or "role after@site" (blocked natively)
+	Others []string `json:"others"` // "name@site" (parked) or "name after@site" (blocked natively)
+	// States: goroutine name -> "state@site" of the last step state it wrote (parked goroutines only)
+	States map[string]string `json:"states,omitempty"`
 }
 
 // Stats are per-run counters for the evidence file.
@@ -248,7 +257,8 @@ func (s *Sim) park(site string, m *sync.Mutex, nsel int, lazy bool, notBefore in
 		return nil
 	}
 	g.LastSite = site
-	p := &parked{g: g, site: site, mu: m, ch: make(chan struct{}), nsel: nsel, lazy: lazy, notBefore: notBefore}
+	p := &parked{g: g, site: site, mu: m, ch: make(chan struct{}), nsel: nsel, lazy: lazy, notBefore: notBefore, afterState: g.stateFresh}
+	g.stateFresh = false
 	s.mu.Lock()
 	if old := s.parked[g.Name]; old != nil {
 		s.harness = append(s.harness, "goroutine parked twice: "+g.Name)
@@ -312,6 +322,18 @@ func EnvPoint(site string, lazy bool, notBefore int64) {
 // quiescent point, before any goroutine is released: fn observes a state in which every goroutine
 // has either finished or is durably blocked (used to sample "what is still alive when the call
 // returned" without racing against goroutines that are just exiting).
+// NoteState records that the calling goroutine has just written `state` to a step state field
+// (instrumentation rule T8). Not a scheduling point.
+func NoteState(site string, state string) {
+	if active() == nil {
+		return
+	}
+	if g := lookup(); g != nil {
+		g.LastState, g.LastStateSite = state, site
+		g.stateFresh = true
+	}
+}
+
 func EnvQuiesce(site string, fn func()) {
 	s := active()
 	if s == nil {
@@ -750,6 +772,12 @@ func (s *Sim) Run(until func() bool) Outcome {
 			sn := Snapshot{Seq: s.seq.Load() + 1, Site: p.site, G: p.g.Name}
 			for _, q := range s.parked {
 				sn.Others = append(sn.Others, q.g.Name+"@"+q.site)
+				if q.g.LastState != "" {
+					if sn.States == nil {
+						sn.States = map[string]string{}
+					}
+					sn.States[q.g.Name] = q.g.LastState + "@" + q.g.LastStateSite
+				}
 			}
 			for _, g := range s.live {
 				if s.parked[g.Name] == nil && g.Name != p.g.Name {
